@@ -125,12 +125,22 @@ func (c *PathCtx) Branch(cond *Term) bool {
 		pos := c.curFrame.fn.Prog.Fset.Position(c.curFrame.cur.Pos())
 		c.ex.QuerySites[fmt.Sprintf("%s @%s:%d", c.curFrame.fn.Name(), pos.Filename[strings.LastIndex(pos.Filename, "/")+1:], pos.Line)]++
 	}
-	rt := s.Check(cond)
+	// The path condition is satisfiable (invariant), so "pc and not cond unsat" alone proves that the
+	// true side is the only feasible one, and vice versa. The first query runs with a short time-out:
+	// a valid condition often has a hard sat side and a trivial unsat side.
+	rt := s.CheckT(cond, 1500)
 	s.Pop()
 	rf := "sat"
 	if rt != "unsat" {
 		rf = s.Check(Not(cond))
 		s.Pop()
+		if rf != "unsat" && rt == "unknown" {
+			rt = s.Check(cond)
+			s.Pop()
+		}
+		if rf == "unsat" {
+			rt = "sat"
+		}
 	}
 	if rt == "unknown" || rf == "unknown" {
 		c.ex.Unknown++
